@@ -389,6 +389,14 @@ def oracle_hits(ires):
         if "oracle=" in ln:
             r = parse_line(ln)
             hits.append((r["idx"], r["extra"]["oracle"], r["extra"]))
+        elif " fault #" in ln:
+            # the harness's shadow state saw the LIBRARY read or write an allocation it had released, or a
+            # value / table it had moved out (the fault line ends the history): C02, observed on the
+            # implementation alone.  Inside the precondition (disc / hyp, decided by the caller) this is a
+            # concrete failing input whatever the model says.
+            r = parse_line(ln)
+            if r.get("out") == "fault" or r.get("kind") == "fault":
+                hits.append((r["idx"], "C02:library-touched-%s" % ((r.get("detail") or "memory").split()[0]), r["extra"]))
     fin = ires.get("final")
     if fin and fin.get("oracle"):
         hits.append(("F", fin["oracle"], fin))
